@@ -34,7 +34,7 @@ type SetCase struct {
 
 func (c *SetCase) Env() *Env { return c.env }
 func (c *SetCase) Prepare() error {
-	d, err := schema.Parse([]byte(c.Defs.XML()))
+	d, err := parseDefs(c.Defs.XML())
 	if err != nil {
 		return err
 	}
